@@ -1225,8 +1225,8 @@ def _member_str(path, rec):
     def label_part(v, present):
         if not present:
             return (StrV(''), None)
-        return (lambda x: isinstance(x, Formatted) and isinstance(x.template, StrV) and x.template.value == ' <=> {}' and len(x.args) == 1
-                and joined(' ', v)(x.args[0]), None)
+        # ' <=> {}'.format(t) and f' <=> {t}' have one normal form (engine: _format_normal_form): the literal, then the rendered value
+        return (lambda x: text_is(x, [' <=> ', (joined(' ', v), None)]), None)
 
     def check(path, outcome, rec):
         ok = _no_exc(outcome) and rec.names() == ['_extent.members', '_intent.members'] and not any(c[1] or c[2] for c in rec.calls)
